@@ -335,6 +335,10 @@ impl<'p> Interp<'p> {
 					}
 					return Ok(taken);
 				}
+				Rec::Decided(2) => {
+					self.tpos += 1;
+					return Err(Ctl::Infeasible);
+				}
 				o => return Err(Ctl::Stop(format!("internal: trace mismatch at branch ({:?})", o))),
 			}
 		}
@@ -352,7 +356,11 @@ impl<'p> Interp<'p> {
 				self.tpos += 1;
 				Ok(false)
 			}
-			(Res::Unsat, Res::Unsat) => Err(Ctl::Infeasible),
+			(Res::Unsat, Res::Unsat) => {
+				self.trace.push(Rec::Decided(2));
+				self.tpos += 1;
+				Err(Ctl::Infeasible)
+			}
 			(Res::Sat, Res::Sat) => {
 				if !self.spec_marks.is_empty() {
 					return Err(Ctl::Impure("fork inside a speculative branch".into()));
@@ -373,6 +381,10 @@ impl<'p> Interp<'p> {
 		}
 		if self.tpos < self.trace.len() {
 			match self.trace[self.tpos] {
+				Rec::Decided(2) => {
+					self.tpos += 1;
+					return Err(Ctl::Infeasible);
+				}
 				Rec::Decided(x) => {
 					self.tpos += 1;
 					return Ok(match x {
@@ -390,7 +402,11 @@ impl<'p> Interp<'p> {
 		let r = match (ft, ff) {
 			(Res::Sat, Res::Unsat) => Some(true),
 			(Res::Unsat, Res::Sat) => Some(false),
-			(Res::Unsat, Res::Unsat) => return Err(Ctl::Infeasible),
+			(Res::Unsat, Res::Unsat) => {
+				self.trace.push(Rec::Decided(2));
+				self.tpos += 1;
+				return Err(Ctl::Infeasible);
+			}
 			(Res::Sat, Res::Sat) => None,
 			_ => return Err(Ctl::Unknown("solver answered unknown at a branch".into())),
 		};
@@ -507,9 +523,21 @@ impl<'p> Interp<'p> {
 	pub fn choice(&mut self, c: T, site: usize, f1: &mut dyn FnMut(&mut Self) -> R<V>, f2: &mut dyn FnMut(&mut Self) -> R<V>) -> R<V> {
 		let nc = self.tm.not(c);
 		let merged = self.spec_unit(site, &mut |s: &mut Self| {
-			let v1 = s.speculate(c, f1)?;
-			let v2 = s.speculate(nc, f2)?;
-			s.merge(c, v1, v2)
+			// a side whose guard contradicts the path condition simply does not exist
+			let v1 = match s.speculate(c, f1) {
+				Err(Ctl::Infeasible) => None,
+				r => Some(r?),
+			};
+			let v2 = match s.speculate(nc, f2) {
+				Err(Ctl::Infeasible) => None,
+				r => Some(r?),
+			};
+			match (v1, v2) {
+				(Some(a), Some(b)) => s.merge(c, a, b),
+				(Some(a), None) => Ok(a),
+				(None, Some(b)) => Ok(b),
+				(None, None) => Err(Ctl::Infeasible),
+			}
 		})?;
 		if let Some(v) = merged {
 			return Ok(v);
